@@ -68,7 +68,12 @@ func (p PatternSchema) Validate(d any) error {
 		}
 	}
 
-	_, ok := d.(*regexp.Regexp)
+	r, ok := d.(*regexp.Regexp)
+	if ok && r == nil {
+		return &ConstraintError{
+			Message: "Pattern value should not be nil.",
+		}
+	}
 	if !ok {
 		return &ConstraintError{
 			Message: fmt.Sprintf("%T is not a valid data type for a float schema.", d),
